@@ -9,8 +9,12 @@ import (
 
 	"github.com/sarchlab/akita/v5/mem"
 	"github.com/sarchlab/akita/v5/mem/memcontrolprotocol"
+	"github.com/sarchlab/akita/v5/mem/memprotocol"
 	"github.com/sarchlab/akita/v5/mem/vm"
+	"github.com/sarchlab/akita/v5/mem/vm/addresstranslator"
+	"github.com/sarchlab/akita/v5/mem/vm/gmmu"
 	"github.com/sarchlab/akita/v5/mem/vm/mmu"
+	"github.com/sarchlab/akita/v5/mem/vm/mmuCache"
 	"github.com/sarchlab/akita/v5/mem/vm/tlb"
 	"github.com/sarchlab/akita/v5/mem/vm/vmprotocol"
 	"github.com/sarchlab/akita/v5/messaging"
@@ -42,7 +46,30 @@ type vmInput struct {
 	Inflight   int      `json:"inflight"`
 	PortBuf    int      `json:"port_buf"`
 	Buf        bool     `json:"buf"`
+	AT         bool     `json:"at,omitempty"`        // an address translator on top: the driver issues memory accesses
+	MMUCache   bool     `json:"mmu_cache,omitempty"` // an MMU cache between the TLBs and the (G)MMU
+	GMMU       bool     `json:"gmmu,omitempty"`      // a GMMU (pages of device 2 are resolved remotely by the driver) instead of the MMU
 	Script     []VMOp   `json:"script"`
+}
+
+// vmModules lists the control targets of a stack, top-down.
+func vmModules(in *vmInput) []string {
+	var all []string
+	if in.AT {
+		all = append(all, "AT")
+	}
+	for i := range in.TLBs {
+		all = append(all, fmt.Sprintf("TLB%d", i))
+	}
+	if in.MMUCache {
+		all = append(all, "MMUCache")
+	}
+	if in.GMMU {
+		all = append(all, "GMMU")
+	} else {
+		all = append(all, "MMU")
+	}
+	return all
 }
 
 func runVM(in *vmInput) (hx.Case, error) {
@@ -57,18 +84,55 @@ func runVM(in *vmInput) (hx.Case, error) {
 		const k = 12
 		pt := vm.NewPageTable(k)
 		for p := uint64(0); p < 64; p++ {
-			pt.Insert(vm.Page{PID: 1, VAddr: p << k, PAddr: (p + 100) << k, PageSize: 1 << k, Valid: true, DeviceID: 1})
+			dev := uint64(1)
+			if in.GMMU && p%3 == 2 {
+				dev = 2 // owned by another device: the GMMU asks its LowModule (the driver)
+			}
+			pt.Insert(vm.Page{PID: 1, VAddr: p << k, PAddr: (p + 100) << k, PageSize: 1 << k, Valid: true, DeviceID: dev})
 		}
-		ms := mmu.DefaultSpec()
-		ms.Log2PageSize = k
-		ms.Latency = max(1, in.MMULatency)
-		ms.MaxRequestsInFlight = max(1, in.Inflight)
-		m := mmu.MakeBuilder().WithRegistrar(sim.Reg).WithSpec(ms).WithResources(mmu.Resources{PageTable: pt}).Build("MMU")
-		sim.AddPorts(m, buf, "Top", "Control")
-		comps := []memdrv.PortOwner{m}
-		ctrl := map[string]messaging.Port{"MMU": m.GetPortByName("Control")}
-		lower := m.GetPortByName("Top")
+		var comps []memdrv.PortOwner
+		ctrl := map[string]messaging.Port{}
 		var links [][2]messaging.Port
+		var lower messaging.Port
+		var gm *gmmu.Comp
+		if in.GMMU {
+			gs := gmmu.DefaultSpec()
+			gs.DeviceID, gs.Log2PageSize = 1, k
+			gs.Latency, gs.MaxRequestsInFlight = max(1, in.MMULatency), max(1, in.Inflight)
+			gs.LowModule = "Drv.Remote"
+			gm = gmmu.MakeBuilder().WithRegistrar(sim.Reg).WithSpec(gs).WithResources(gmmu.Resources{PageTable: pt}).Build("GMMU")
+			sim.AddPorts(gm, buf, "Top", "Bottom", "Control")
+			comps = append(comps, gm)
+			ctrl["GMMU"] = gm.GetPortByName("Control")
+			lower = gm.GetPortByName("Top")
+		} else {
+			ms := mmu.DefaultSpec()
+			ms.Log2PageSize = k
+			ms.Latency = max(1, in.MMULatency)
+			ms.MaxRequestsInFlight = max(1, in.Inflight)
+			m := mmu.MakeBuilder().WithRegistrar(sim.Reg).WithSpec(ms).WithResources(mmu.Resources{PageTable: pt}).Build("MMU")
+			sim.AddPorts(m, buf, "Top", "Control")
+			comps = append(comps, m)
+			ctrl["MMU"] = m.GetPortByName("Control")
+			lower = m.GetPortByName("Top")
+		}
+		if in.MMUCache {
+			cs := mmuCache.DefaultSpec()
+			cs.Log2PageSize, cs.PageSize, cs.NumLevels, cs.NumBlocks, cs.LatencyPerLevel = k, 1<<k, 4, 2, 2
+			up := messaging.RemotePort("Drv.Xl")
+			if n := len(in.TLBs); n > 0 {
+				up = messaging.RemotePort(fmt.Sprintf("TLB%d.Bottom", n-1))
+			} else if in.AT {
+				up = "AT.Translation"
+			}
+			mc := mmuCache.MakeBuilder().WithRegistrar(sim.Reg).WithSpec(cs).
+				WithResources(mmuCache.Resources{LowModulePort: lower.AsRemote(), UpModulePort: up}).Build("MMUCache")
+			sim.AddPorts(mc, buf, "Top", "Bottom", "Control")
+			links = append(links, [2]messaging.Port{mc.GetPortByName("Bottom"), lower})
+			lower = mc.GetPortByName("Top")
+			comps = append(comps, mc)
+			ctrl["MMUCache"] = mc.GetPortByName("Control")
+		}
 		for i := len(in.TLBs) - 1; i >= 0; i-- {
 			c := in.TLBs[i]
 			sp := tlb.DefaultSpec()
@@ -83,14 +147,35 @@ func runVM(in *vmInput) (hx.Case, error) {
 			comps = append(comps, t)
 			ctrl[t.Name()] = t.GetPortByName("Control")
 		}
-		d := sim.NewDriver("Drv", 1*timing.GHz, 4, "Xl", "Ctrl")
+		var at *addresstranslator.Comp
+		if in.AT {
+			as := addresstranslator.DefaultSpec()
+			as.Log2PageSize, as.DeviceID, as.NumReqPerCycle = k, 1, 2
+			at = addresstranslator.MakeBuilder().WithRegistrar(sim.Reg).WithSpec(as).
+				WithResources(addresstranslator.Resources{
+					MemProviderMapper:         &mem.SinglePortMapper{Port: "Drv.Mem"},
+					TranslationProviderMapper: &mem.SinglePortMapper{Port: lower.AsRemote()}}).Build("AT")
+			sim.AddPorts(at, buf, "Top", "Bottom", "Translation", "Control")
+			links = append(links, [2]messaging.Port{at.GetPortByName("Translation"), lower})
+			comps = append(comps, at)
+			ctrl["AT"] = at.GetPortByName("Control")
+		}
+		d := sim.NewDriver("Drv", 1*timing.GHz, 4, "Xl", "Top", "Mem", "Remote", "Ctrl")
 		for _, l := range links {
 			sim.Connect(l[0], l[1])
 		}
-		sim.Connect(d.GetPortByName("Xl"), lower)
+		if at != nil {
+			sim.Connect(d.GetPortByName("Top"), at.GetPortByName("Top"))
+			sim.Connect(d.GetPortByName("Mem"), at.GetPortByName("Bottom"))
+		} else {
+			sim.Connect(d.GetPortByName("Xl"), lower)
+		}
+		if gm != nil {
+			sim.Connect(d.GetPortByName("Remote"), gm.GetPortByName("Bottom"))
+		}
 		cps := []messaging.Port{d.GetPortByName("Ctrl")}
-		for _, p := range ctrl {
-			cps = append(cps, p)
+		for _, n := range vmModules(in) {
+			cps = append(cps, ctrl[n])
 		}
 		sim.Connect(cps...)
 		for _, c := range comps {
@@ -102,9 +187,61 @@ func runVM(in *vmInput) (hx.Case, error) {
 				}
 			}
 		}
-		cursor, delay, delayOf := 0, 0, -1
+		type due struct {
+			at   uint64
+			port string
+			msg  messaging.Msg
+		}
+		var queue []due
+		cursor, delay, delayOf, seen, nd := 0, 0, -1, 0, 0
 		d.TickFn = func(dd *memdrv.Driver) bool {
 			progress := dd.Drain()
+			// the driver is the memory below the translator and the remote owner of
+			// the pages of device 2: answer what arrives, a few cycles later
+			for ; seen < len(dd.Log); seen++ {
+				switch m := dd.Log[seen].Msg.(type) {
+				case memprotocol.ReadReq:
+					rsp := memprotocol.DataReadyRsp{Data: make([]byte, m.AccessByteSize)}
+					rsp.ID, rsp.Src, rsp.Dst, rsp.RspTo = memdrv.NewID(), dd.GetPortByName("Mem").AsRemote(), m.Src, m.ID
+					rsp.TrafficClass = "memprotocol.DataReadyRsp"
+					queue = append(queue, due{dd.Cycle() + uint64(1+nd%5), "Mem", rsp})
+					nd++
+				case memprotocol.WriteReq:
+					rsp := memprotocol.WriteDoneRsp{}
+					rsp.ID, rsp.Src, rsp.Dst, rsp.RspTo = memdrv.NewID(), dd.GetPortByName("Mem").AsRemote(), m.Src, m.ID
+					rsp.TrafficClass = "memprotocol.WriteDoneRsp"
+					queue = append(queue, due{dd.Cycle() + uint64(1+nd%5), "Mem", rsp})
+					nd++
+				case vmprotocol.TranslationReq:
+					if pg, ok := pt.Find(m.PID, m.VAddr); ok {
+						rsp := vmprotocol.TranslationRsp{Page: pg}
+						rsp.ID, rsp.Src, rsp.Dst, rsp.RspTo = memdrv.NewID(), dd.GetPortByName("Remote").AsRemote(), m.Src, m.ID
+						rsp.TrafficClass = "vmprotocol.TranslationRsp"
+						queue = append(queue, due{dd.Cycle() + uint64(1+nd%7), "Remote", rsp})
+						nd++
+					}
+				case memcontrolprotocol.Rsp:
+					ctrlAcked++
+				}
+			}
+			kept := queue[:0]
+			blocked := map[string]bool{}
+			for _, q := range queue {
+				p := dd.GetPortByName(q.port)
+				if q.at <= dd.Cycle() && !blocked[q.port] && p.CanSend() {
+					p.Send(q.msg)
+					progress = true
+					continue
+				}
+				if q.at <= dd.Cycle() {
+					blocked[q.port] = true
+				}
+				kept = append(kept, q)
+			}
+			queue = kept
+			if len(queue) > 0 {
+				progress = true
+			}
 			for cursor < len(in.Script) {
 				op := in.Script[cursor]
 				if op.Delay > 0 {
@@ -126,12 +263,27 @@ func runVM(in *vmInput) (hx.Case, error) {
 					req.TrafficClass = "memcontrolprotocol.Req"
 					cp.Send(req)
 					ctrlSent++
+				} else if at != nil {
+					tp := dd.GetPortByName("Top")
+					if !tp.CanSend() {
+						return progress
+					}
+					meta := messaging.MsgMeta{ID: memdrv.NewID(), Src: tp.AsRemote(), Dst: at.GetPortByName("Top").AsRemote()}
+					if op.P%2 == 1 {
+						meta.TrafficClass = "memprotocol.WriteReq"
+						tp.Send(memprotocol.WriteReq{MsgMeta: meta, Address: op.P<<k + 8, Data: []byte{1, 2, 3, 4}, PID: 1})
+					} else {
+						meta.TrafficClass = "memprotocol.ReadReq"
+						tp.Send(memprotocol.ReadReq{MsgMeta: meta, Address: op.P<<k + 8, AccessByteSize: 4, PID: 1})
+					}
 				} else {
 					xp := dd.GetPortByName("Xl")
 					if !xp.CanSend() {
 						return progress
 					}
-					req := vmprotocol.TranslationReq{VAddr: op.P<<k + 8, PID: 1, DeviceID: 1}
+					// page-aligned, as the address translator sends them: the TLB keys its
+					// MSHR by the requested address and matches responses by the page's
+					req := vmprotocol.TranslationReq{VAddr: op.P << k, PID: 1, DeviceID: 1}
 					req.ID, req.Src, req.Dst = memdrv.NewID(), xp.AsRemote(), lower.AsRemote()
 					req.TrafficClass = "vmprotocol.TranslationReq"
 					xp.Send(req)
@@ -146,11 +298,6 @@ func runVM(in *vmInput) (hx.Case, error) {
 		if err := eng.Run(); err != nil {
 			panic(err)
 		}
-		for _, rv := range d.Log {
-			if _, ok := rv.Msg.(memcontrolprotocol.Rsp); ok {
-				ctrlAcked++
-			}
-		}
 	})
 	if panicked {
 		return hx.Case{}, fmt.Errorf("vm stack panicked: %s", msg)
@@ -159,7 +306,7 @@ func runVM(in *vmInput) (hx.Case, error) {
 	if err != nil {
 		return hx.Case{}, err
 	}
-	resets, mid, seen, total := 0, false, 0, 0
+	mid, seen, total := false, 0, 0
 	for _, op := range in.Script {
 		if op.K == "x" {
 			total++
@@ -168,14 +315,19 @@ func runVM(in *vmInput) (hx.Case, error) {
 	for _, op := range in.Script {
 		if op.K == "x" {
 			seen++
-		} else if op.Cmd == "reset" {
-			resets++
-			if seen > 0 && seen < total {
-				mid = true
-			}
+		} else if op.Cmd == "reset" && seen > 0 && seen < total {
+			mid = true
 		}
 	}
 	c.Tags = []string{"case:vm", fmt.Sprintf("tlbs:%d", len(in.TLBs))}
+	for _, f := range []struct {
+		on   bool
+		name string
+	}{{in.AT, "vm:at"}, {in.MMUCache, "vm:mmucache"}, {in.GMMU, "vm:gmmu"}, {!in.GMMU, "vm:mmu"}} {
+		if f.on {
+			c.Tags = append(c.Tags, f.name)
+		}
+	}
 	if in.Buf {
 		c.Tags = append(c.Tags, "buffer-tracing")
 	}
@@ -186,11 +338,17 @@ func runVM(in *vmInput) (hx.Case, error) {
 		c.Tags = append(c.Tags, "script-incomplete")
 	}
 	c.Nontrivial = mid && o.Tasks >= 20 && quiescent
-	if !in.Buf {
-		// the TLB and the MMU add admission milestones to the incoming-buffer task
-		c.Known = "no_buffer_tracing_dangling_milestone"
-	}
+	c.Known = vmKnown(in)
 	return c, nil
+}
+
+// vmKnown names the known finding a violation in this stack is attributed to.
+func vmKnown(in *vmInput) string {
+	if !in.Buf {
+		// the TLB, the MMU ... add admission milestones to the incoming-buffer task
+		return "no_buffer_tracing_dangling_milestone"
+	}
+	return ""
 }
 
 // finish turns a recorded run into a case: registry deltas, the Go-side verdict
@@ -237,10 +395,22 @@ func finish(log []rev, regs0 [3]int, done bool, ctrlSent, ctrlAcked int) (hx.Cas
 }
 
 // traceTerm prints a recorded event list as a Coq list of trace events,
-// numbering kinds and locations.
+// numbering kinds and locations, and renumbering the task IDs 1, 2, 3 ... in the
+// order of their first appearance (0 stays 0). The acceptor only ever compares IDs
+// for equality, so an injective renaming does not change its verdict; the 19-digit
+// tracing-local IDs made coqc spend most of the tier reading numerals.
 func traceTerm(log []rev) string {
 	kinds := map[string]uint64{"req_in": 1, "req_out": 2, "pipeline": 3, "incoming_buffer": 4, "outgoing_buffer": 5}
 	locs := map[string]uint64{}
+	ids := map[uint64]uint64{0: 0}
+	id := func(x uint64) uint64 {
+		v, ok := ids[x]
+		if !ok {
+			v = uint64(len(ids))
+			ids[x] = v
+		}
+		return v
+	}
 	evs := make([]string, 0, len(log))
 	for _, e := range log {
 		switch e.K {
@@ -255,13 +425,13 @@ func traceTerm(log []rev) string {
 				l = uint64(len(locs) + 1)
 				locs[e.Loc] = l
 			}
-			evs = append(evs, hx.App("TStart", hx.N(e.ID), hx.N(e.Parent), hx.N(k), hx.N(l), hx.N(e.T)))
+			evs = append(evs, hx.App("TStart", hx.N(id(e.ID)), hx.N(id(e.Parent)), hx.N(k), hx.N(l), hx.N(e.T)))
 		case "e":
-			evs = append(evs, hx.App("TEnd", hx.N(e.ID), hx.N(e.T)))
+			evs = append(evs, hx.App("TEnd", hx.N(id(e.ID)), hx.N(e.T)))
 		case "g":
-			evs = append(evs, hx.App("TTag", hx.N(e.Task), hx.N(e.T)))
+			evs = append(evs, hx.App("TTag", hx.N(id(e.Task)), hx.N(e.T)))
 		case "m":
-			evs = append(evs, hx.App("TMile", hx.N(e.Task), hx.N(e.T)))
+			evs = append(evs, hx.App("TMile", hx.N(id(e.Task)), hx.N(e.T)))
 		}
 	}
 	return hx.L(evs)
@@ -273,11 +443,15 @@ func genVM(r *hx.Rand, tier string) input {
 		in.TLBs = append(in.TLBs, tlbCfg{Sets: 1 << r.Intn(3), Ways: 1 << r.Intn(3), MSHR: 1 + r.Intn(4),
 			Latency: 2 + r.Intn(3), Width: 1 + r.Intn(3)})
 	}
-	var all []string
-	for i := range in.TLBs {
-		all = append(all, fmt.Sprintf("TLB%d", i))
+	if variant := r.Intn(4); variant > 0 {
+		in.AT = r.Bool()
+		in.MMUCache = r.Bool()
+		in.GMMU = r.Bool()
+		if r.Chance(1, 4) {
+			in.TLBs = nil // the translator / driver talks to the MMU cache or (G)MMU directly
+		}
 	}
-	all = append(all, "MMU")
+	all := vmModules(&in)
 	traffic := func(n int) {
 		for i := 0; i < n; i++ {
 			op := VMOp{K: "x", P: uint64(r.Intn(24))}
@@ -300,10 +474,16 @@ func genVM(r *hx.Rand, tier string) input {
 				c("reset", all[i], r.Intn(3))
 			}
 		case 1: // pause, invalidate, enable
-			t := all[r.Intn(len(all))]
+			j := r.Intn(len(all))
+			t := all[j]
 			c("pause", t, r.Intn(3))
 			c("invalidate", t, r.Intn(3))
 			c("enable", t, r.Intn(6))
+			// a flushed lower module forgets requests the modules above it still
+			// wait for; resetting those lets the rest of the history be issued
+			for i := 0; i < j; i++ {
+				c("reset", all[i], r.Intn(3))
+			}
 		case 2: // drain, enable
 			t := all[r.Intn(len(all))]
 			c("drain", t, 0)
